@@ -501,4 +501,97 @@ theorem load_store_graph_needs_disjoint :
   rw [← h5] at hg
   simp at hg
 
+/-! ## C. copyStateData
+
+### C1: result code of the overload with a list of names -/
+
+
+/-- the requested name is a key of both substate maps -/
+def nameFound (destS srcS : Sp) (nm : Nat) : Bool :=
+  (findSub (substateLocs destS) nm).isSome && (findSub (substateLocs srcS) nm).isSome
+
+theorem csdNames_count (destS : Sp) (dest : St) (srcS : Sp) (src : St) (names : List Nat) :
+    (csdNames destS dest srcS src names).2 =
+      if names.countP (nameFound destS srcS) = names.length then .all
+      else if names.countP (nameFound destS srcS) > 0 then .some else .none := by
+  unfold csdNames
+  simp only []
+  generalize hstep : (fun (acc : St × Nat) (nm : Nat) =>
+    match findSub (substateLocs destS) nm, findSub (substateLocs srcS) nm with
+    | some dc, some sc =>
+      match nodeAt destS dc, acc.1.sub dc, src.sub sc with
+      | some node, some dsub, some ssub => (acc.1.setSub dc (copyState node dsub ssub), acc.2 + 1)
+      | _, _, _ => (acc.1, acc.2 + 1)
+    | _, _ => acc) = step
+  have key : ∀ (ns : List Nat) (acc : St × Nat),
+      (ns.foldl step acc).2 = acc.2 + ns.countP (nameFound destS srcS) := by
+    intro ns
+    induction ns with
+    | nil => intro acc; simp
+    | cons n ns ih =>
+      intro acc
+      rw [List.foldl_cons, ih, List.countP_cons]
+      have : (step acc n).2 = acc.2 + (if nameFound destS srcS n = true then 1 else 0) := by
+        subst hstep
+        unfold nameFound
+        dsimp only
+        cases h1 : findSub (substateLocs destS) n <;> cases h2 : findSub (substateLocs srcS) n <;>
+          simp only [Option.isSome_none, Option.isSome_some, Bool.and_self, Bool.and_false,
+            Bool.false_and, Bool.false_eq_true, if_false, if_true, Nat.add_zero]
+        split <;> rfl
+      rw [this]; omega
+  rw [key]
+  simp
+
+theorem csdNames_all (destS : Sp) (dest : St) (srcS : Sp) (src : St) (names : List Nat) :
+    (csdNames destS dest srcS src names).2 = .all ↔ ∀ nm ∈ names, nameFound destS srcS nm = true := by
+  rw [csdNames_count, ← List.countP_eq_length]
+  split
+  · simp [*]
+  · split <;> simp [*]
+
+theorem csdNames_none (destS : Sp) (dest : St) (srcS : Sp) (src : St) (names : List Nat)
+    (hne : names ≠ []) :
+    (csdNames destS dest srcS src names).2 = .none ↔ ∀ nm ∈ names, nameFound destS srcS nm = false := by
+  rw [csdNames_count]
+  have h0 : List.countP (nameFound destS srcS) names = 0 ↔ ∀ nm ∈ names, nameFound destS srcS nm = false := by
+    rw [List.countP_eq_zero]; simp
+  have hl : 0 < names.length := List.length_pos_iff.mpr hne
+  constructor
+  · intro h
+    apply h0.mp
+    by_cases hc : List.countP (nameFound destS srcS) names = names.length
+    · simp [hc] at h
+    · by_cases hp : List.countP (nameFound destS srcS) names > 0
+      · simp [hc, hp] at h
+      · omega
+  · intro h
+    rw [h0.mpr h]
+    have : ¬ (0 = names.length) := by omega
+    simp [this]
+
+theorem csdNames_some (destS : Sp) (dest : St) (srcS : Sp) (src : St) (names : List Nat) :
+    (csdNames destS dest srcS src names).2 = .some ↔
+      (∃ nm ∈ names, nameFound destS srcS nm = true) ∧ (∃ nm ∈ names, nameFound destS srcS nm = false) := by
+  rw [csdNames_count]
+  have h0 : List.countP (nameFound destS srcS) names > 0 ↔ ∃ nm ∈ names, nameFound destS srcS nm = true := by
+    rw [gt_iff_lt, List.countP_pos_iff]
+  have h1 : List.countP (nameFound destS srcS) names = names.length ↔ ¬ ∃ nm ∈ names, nameFound destS srcS nm = false := by
+    rw [List.countP_eq_length]; simp
+  rw [← h0]
+  by_cases hc : List.countP (nameFound destS srcS) names = names.length
+  · have := h1.mp hc
+    simp only [hc, if_true]
+    constructor
+    · intro h; cases h
+    · intro h; exact absurd h.2 this
+  · by_cases hp : List.countP (nameFound destS srcS) names > 0
+    · simp only [hc, hp, if_false, if_true, true_and]
+      have := Classical.not_not.mp (mt h1.mpr hc)
+      simp [this]
+    · simp only [hc, hp, if_false, false_and]
+      constructor
+      · intro h; cases h
+      · intro h; exact h.elim
+
 end OmplModel.Copy
